@@ -18,12 +18,18 @@ def Kind.mem (dims : Nat → Nat) (k : Kind) (v : Int) : Prop :=
 
 structure Sat (Γ : Env) (σ : State) : Prop where
   dim0 : σ.dims 0 = 0
-  vars : ∀ x, (Γ.var x).mem σ.dims (σ.vars x)
+  vars : ∀ x v, σ.vars x = some v → (Γ.var x).mem σ.dims v
   size : ∀ a d c, (Γ.arr a).size = some (d, c) → (σ.dims d : Int) + c ≤ ((σ.arrs a).length : Int)
   elem : ∀ a v, v ∈ σ.arrs a → (Γ.arr a).elem.mem σ.dims v
 
 def FactsHold (σ : State) (F : Facts) : Prop :=
-  ∀ p ∈ F, ∃ v, evalE σ p.2 = .ok v ∧ σ.vars p.1 < v
+  ∀ p ∈ F, ∃ u v, σ.vars p.1 = some u ∧ evalE σ p.2 = .ok v ∧ u < v
+
+/-- an error is acceptable: out of bounds only at a waived site (reads of unassigned variables are a
+    different class of failure, not judged by the kinds) -/
+def Err.okFor (ill : List Nat) : Err → Prop
+  | .oob s => s ∈ ill
+  | .uninit _ => True
 
 theorem Kind.any_mem (dims : Nat → Nat) (v : Int) : Kind.any.mem dims v := by
   constructor <;> intro _ <;> simp [Kind.any]
@@ -150,9 +156,13 @@ theorem kindOf_sound {Γ : Env} {σ : State} (hs : Sat Γ σ) :
     exact Kind.ofConst_mem _ hs.dim0 c
   | var x =>
     intro v h
-    simp only [evalE, Except.ok.injEq] at h
-    subst h
-    exact hs.vars x
+    simp only [evalE] at h
+    cases hx : σ.vars x with
+    | none => simp [hx] at h
+    | some w =>
+      simp only [hx, Except.ok.injEq] at h
+      subst h
+      exact hs.vars x w hx
   | dim d =>
     intro v h
     simp only [evalE, Except.ok.injEq] at h
@@ -235,17 +245,19 @@ theorem idxKind_sound {Γ : Env} {σ : State} {F : Facts} (hs : Sat Γ σ) (hF :
           have hmem := List.mem_of_find?_eq_some hf
           have hprop := List.find?_some hf
           simp only [Bool.and_eq_true, beq_iff_eq] at hprop
-          obtain ⟨w, hw, hlt⟩ := hF p hmem
+          obtain ⟨u, w, hu, hw, hlt⟩ := hF p hmem
           have hkw := kindOf_sound hs p.2 w hw
           have hwb := hkw.2 d c hp
-          simp only [evalE, Except.ok.injEq] at h
+          simp only [evalE] at h
+          rw [hprop.1] at hu
+          simp only [hu, Except.ok.injEq] at h
+          subst h
           constructor
           · intro c' hc'
             exact base.1 c' hc'
           · intro d' c' hc'
             simp only [Option.some.injEq, Prod.mk.injEq] at hc'
             obtain ⟨rfl, rfl⟩ := hc'
-            rw [hprop.1] at hlt
             omega
   | const c => simpa using base
   | dim d => simpa using base
@@ -283,11 +295,19 @@ theorem idxOk_sound {Γ : Env} {σ : State} {F : Facts} (hs : Sat Γ σ) (hF : F
         · subst hd; rw [hs.dim0] at h2; omega
 
 theorem exprOk_sound {Γ : Env} {σ : State} {F : Facts} {ill : List Nat} (hs : Sat Γ σ) (hF : FactsHold σ F) :
-    ∀ (e : Expr) (s : Nat), exprOk Γ ill F e = true → evalE σ e = .error s → s ∈ ill := by
+    ∀ (e : Expr) (s : Err), exprOk Γ ill F e = true → evalE σ e = .error s → s.okFor ill := by
   intro e
   induction e with
   | const c => intro s _ h; simp [evalE] at h
-  | var x => intro s _ h; simp [evalE] at h
+  | var x =>
+    intro s _ h
+    simp only [evalE] at h
+    cases hx : σ.vars x with
+    | none =>
+      simp only [hx, Except.error.injEq] at h
+      subst h
+      trivial
+    | some w => simp [hx] at h
   | dim d => intro s _ h; simp [evalE] at h
   | size a => intro s _ h; simp [evalE] at h
   | load st a i ih =>
@@ -307,7 +327,7 @@ theorem exprOk_sound {Γ : Env} {σ : State} {F : Facts} {ill : List Nat} (hs : 
         subst h
         rcases hok.2 with h2 | h2
         · exact absurd (idxOk_sound hs hF h2 hi) hb
-        · simpa using h2
+        · exact (by simpa using h2 : st ∈ ill)
   | add a b iha ihb =>
     intro s hok h
     simp only [exprOk, Bool.and_eq_true] at hok
@@ -342,8 +362,8 @@ theorem exprOk_sound {Γ : Env} {σ : State} {F : Facts} {ill : List Nat} (hs : 
       | ok y => simp [ha, hb] at h
 
 theorem cmp2_err {Γ : Env} {σ : State} {F : Facts} {ill : List Nat} (hs : Sat Γ σ) (hF : FactsHold σ F)
-    {a b : Expr} {f : Int → Int → Bool} {s : Nat}
-    (ha : exprOk Γ ill F a = true) (hb : exprOk Γ ill F b = true) (h : cmp2 σ a b f = .error s) : s ∈ ill := by
+    {a b : Expr} {f : Int → Int → Bool} {s : Err}
+    (ha : exprOk Γ ill F a = true) (hb : exprOk Γ ill F b = true) (h : cmp2 σ a b f = .error s) : s.okFor ill := by
   unfold cmp2 at h
   cases hx : evalE σ a with
   | error e =>
@@ -359,7 +379,7 @@ theorem cmp2_err {Γ : Env} {σ : State} {F : Facts} {ill : List Nat} (hs : Sat 
     | ok y => simp [hx, hy] at h
 
 theorem condOk_sound {Γ : Env} {σ : State} {F : Facts} {ill : List Nat} (hs : Sat Γ σ) (hF : FactsHold σ F) :
-    ∀ (c : Cond) (s : Nat), condOk Γ ill F c = true → evalC σ c = .error s → s ∈ ill := by
+    ∀ (c : Cond) (s : Err), condOk Γ ill F c = true → evalC σ c = .error s → s.okFor ill := by
   intro c
   induction c with
   | lt a b =>
@@ -397,7 +417,7 @@ theorem condOk_sound {Γ : Env} {σ : State} {F : Facts} {ill : List Nat} (hs : 
         subst h
         rcases hok.1.2 with h2 | h2
         · exact absurd (idxOk_sound hs hF h2 hi) hb
-        · simpa using h2
+        · exact (by simpa using h2 : st ∈ ill)
   | and c d ihc ihd =>
     intro s hok h
     simp only [condOk, Bool.and_eq_true] at hok
@@ -450,11 +470,14 @@ theorem condFacts_sound {σ : State} : ∀ (c : Cond), evalC σ c = .ok true →
       simp only [condFacts, List.mem_singleton] at hp
       subst hp
       simp only [evalC, cmp2, evalE] at h
-      cases hb : evalE σ b with
-      | error e => simp [hb] at h
-      | ok y =>
-        simp only [hb, Except.ok.injEq, decide_eq_true_eq] at h
-        exact ⟨y, rfl, h⟩
+      cases hx : σ.vars x with
+      | none => simp [hx] at h
+      | some u =>
+        cases hb : evalE σ b with
+        | error e => simp [hx, hb] at h
+        | ok y =>
+          simp only [hx, hb, Except.ok.injEq, decide_eq_true_eq] at h
+          exact ⟨u, y, rfl, rfl, h⟩
     | const c => intro p hp; simp [condFacts] at hp
     | dim d => intro p hp; simp [condFacts] at hp
     | size a => intro p hp; simp [condFacts] at hp
@@ -558,8 +581,8 @@ theorem FactsHold.append {σ : State} {F G : Facts} (hF : FactsHold σ F) (hG : 
 
 theorem FactsHold.step {σ : State} {F : Facts} (hF : FactsHold σ F) : FactsHold σ.step F := by
   intro p hp
-  obtain ⟨v, hv, hlt⟩ := hF p hp
-  exact ⟨v, by rw [evalE_step]; exact hv, hlt⟩
+  obtain ⟨u, v, hu, hv, hlt⟩ := hF p hp
+  exact ⟨u, v, hu, by rw [evalE_step]; exact hv, hlt⟩
 
 theorem FactsHold.killVar {σ : State} {F : Facts} (hF : FactsHold σ F) (y : Nat) (w : Int) :
     FactsHold (σ.setVar y w) (F.killVar y) := by
@@ -567,17 +590,17 @@ theorem FactsHold.killVar {σ : State} {F : Facts} (hF : FactsHold σ F) (y : Na
   simp only [Facts.killVar, List.mem_filter, Bool.not_eq_true', Bool.or_eq_false_iff,
     beq_eq_false_iff_ne, ne_eq] at hp
   obtain ⟨hmem, hne, huse⟩ := hp
-  obtain ⟨v, hv, hlt⟩ := hF p hmem
-  refine ⟨v, by rw [evalE_setVar _ _ _ _ huse]; exact hv, ?_⟩
-  simp [State.setVar, hne, hlt]
+  obtain ⟨u, v, hu, hv, hlt⟩ := hF p hmem
+  refine ⟨u, v, ?_, by rw [evalE_setVar _ _ _ _ huse]; exact hv, hlt⟩
+  simp [State.setVar, hne, hu]
 
 theorem FactsHold.killArr {σ : State} {F : Facts} (hF : FactsHold σ F) (a : Nat) (l : List Int) :
     FactsHold (σ.setArr a l) (F.killArr a) := by
   intro p hp
   simp only [Facts.killArr, List.mem_filter, Bool.not_eq_true'] at hp
   obtain ⟨hmem, huse⟩ := hp
-  obtain ⟨v, hv, hlt⟩ := hF p hmem
-  exact ⟨v, by rw [evalE_setArr _ _ _ _ huse]; exact hv, hlt⟩
+  obtain ⟨u, v, hu, hv, hlt⟩ := hF p hmem
+  exact ⟨u, v, hu, by rw [evalE_setArr _ _ _ _ huse]; exact hv, hlt⟩
 
 theorem Sat.step {Γ : Env} {σ : State} (hs : Sat Γ σ) : Sat Γ σ.step :=
   ⟨hs.dim0, hs.vars, hs.size, hs.elem⟩
@@ -585,11 +608,14 @@ theorem Sat.step {Γ : Env} {σ : State} (hs : Sat Γ σ) : Sat Γ σ.step :=
 theorem Sat.setVar {Γ : Env} {σ : State} (hs : Sat Γ σ) (x : Nat) (v : Int)
     (hv : (Γ.var x).mem σ.dims v) : Sat Γ (σ.setVar x v) := by
   refine ⟨hs.dim0, ?_, hs.size, hs.elem⟩
-  intro y
+  intro y w hw
   by_cases hy : y = x
   · subst hy
-    simpa [State.setVar] using hv
-  · simpa [State.setVar, hy] using hs.vars y
+    simp only [State.setVar, if_true, Option.some.injEq] at hw
+    subst hw
+    exact hv
+  · simp only [State.setVar, hy, if_false] at hw
+    exact hs.vars y w hw
 
 theorem Sat.setArr {Γ : Env} {σ : State} (hs : Sat Γ σ) (a : Nat) (l : List Int)
     (hsize : ∀ d c, (Γ.arr a).size = some (d, c) → (σ.dims d : Int) + c ≤ (l.length : Int))
@@ -614,7 +640,7 @@ theorem Sat.setArr {Γ : Env} {σ : State} (hs : Sat Γ σ) (a : Nat) (l : List 
     dimensions), an out-of-bounds report is at a waived site -/
 def Good (Γ : Env) (ill : List Nat) (σ : State) (F' : Facts) : Res → Prop
   | .ok σ' => Sat Γ σ' ∧ FactsHold σ' F' ∧ σ'.dims = σ.dims
-  | .oob s => s ∈ ill
+  | .err e => e.okFor ill
   | .done => True
   | .fuel => True
 
@@ -673,10 +699,10 @@ theorem iter_sound {Γ : Env} {ill : List Nat} (stepf : State → Res) (x : Nat)
         rw [hr2] at this
         obtain ⟨a, b, c⟩ := this
         exact ⟨a, b, by rw [c, hd2]; rfl⟩
-      | oob s => rw [hr2] at this; exact this
+      | err e => rw [hr2] at this; exact this
       | done => trivial
       | fuel => trivial
-    | oob s => rw [hr] at hg; exact hg
+    | err e => rw [hr] at hg; exact hg
     | done => trivial
     | fuel => trivial
 
@@ -705,10 +731,10 @@ theorem exec_sound (Γ : Env) (ill : List Nat) :
           rw [hr2] at h2
           obtain ⟨a, b, c⟩ := h2
           exact ⟨a, b, by rw [c, hd']⟩
-        | oob st => rw [hr2] at h2; exact h2
+        | err e => rw [hr2] at h2; exact h2
         | done => trivial
         | fuel => trivial
-      | oob st => rw [hr] at h1; exact h1
+      | err e => rw [hr] at h1; exact h1
       | done => trivial
       | fuel => trivial
     | assign x e =>
@@ -797,13 +823,13 @@ theorem exec_sound (Γ : Env) (ill : List Nat) :
       · simp only [he, if_true]
         exact (by simpa using hc.2 : st ∈ ill)
       · simp only [he, Bool.false_eq_true, if_false]
-        refine ⟨hs.setArr a _ ?_ ?_, hF.killArr a _, rfl⟩
+        refine ⟨(hs.setArr a _ ?_ ?_).step, (hF.killArr a _).step, rfl⟩
         · intro d c hsz
           have := hc.1
           rw [hsz] at this
           simp at this
         · intro w hw
-          exact hs.elem a w (List.dropLast_subset _ hw)
+          exact hs.elem a w (List.mem_of_mem_eraseIdx hw)
     | clear a =>
       simp only [check] at hc
       simp only [exec]
@@ -853,10 +879,10 @@ theorem exec_sound (Γ : Env) (ill : List Nat) :
               rw [hr2] at h2
               obtain ⟨a, b, c'⟩ := h2
               exact ⟨a, b, by rw [c', hd']; rfl⟩
-            | oob st => rw [hr2] at h2; exact h2
+            | err e => rw [hr2] at h2; exact h2
             | done => trivial
             | fuel => trivial
-          | oob st => rw [hr] at h1; exact h1
+          | err e => rw [hr] at h1; exact h1
           | done => trivial
           | fuel => trivial
     | ite c s t =>
@@ -875,7 +901,7 @@ theorem exec_sound (Γ : Env) (ill : List Nat) :
           | ok σ' =>
             rw [hr] at h1
             exact ⟨h1.1, FactsHold.nil _, h1.2.2⟩
-          | oob st => rw [hr] at h1; exact h1
+          | err e => rw [hr] at h1; exact h1
           | done => trivial
           | fuel => trivial
         | false =>
@@ -885,7 +911,7 @@ theorem exec_sound (Γ : Env) (ill : List Nat) :
           | ok σ' =>
             rw [hr] at h1
             exact ⟨h1.1, FactsHold.nil _, h1.2.2⟩
-          | oob st => rw [hr] at h1; exact h1
+          | err e => rw [hr] at h1; exact h1
           | done => trivial
           | fuel => trivial
     | ret => trivial
@@ -894,14 +920,14 @@ theorem exec_sound (Γ : Env) (ill : List Nat) :
     any state that satisfies the declared kinds, with any step budget and any oracle, never reports
     an out-of-bounds access outside `ill`. -/
 theorem kinds_sound (K : Kernel) (ill : List Nat) (h : K.checkWith ill = true) (σ : State)
-    (hσ : Sat K.env σ) (fuel : Nat) (site : Nat) (hr : exec fuel K.body σ = .oob site) : site ∈ ill := by
+    (hσ : Sat K.env σ) (fuel : Nat) (site : Nat) (hr : exec fuel K.body σ = .err (.oob site)) : site ∈ ill := by
   have := exec_sound K.env ill fuel K.body σ [] hσ (FactsHold.nil σ) h
   rw [hr] at this
   exact this
 
 /-- A well-kinded kernel stays within its buffers. -/
 theorem wellKinded_inbounds (K : Kernel) (h : K.wellKinded = true) (σ : State) (hσ : Sat K.env σ)
-    (fuel : Nat) (site : Nat) : exec fuel K.body σ ≠ .oob site := by
+    (fuel : Nat) (site : Nat) : exec fuel K.body σ ≠ .err (.oob site) := by
   intro hr
   have := kinds_sound K [] h σ hσ fuel site hr
   simp at this
